@@ -421,12 +421,12 @@ def correspond(ctx, scale):
             failures.append({'key': f'vq-kmeans:masked-frozen-first-call:exception:{type(ex).__name__}', 'what': repr(ex), 'case': dict(cos=cos_k)})
     # (7b) `lens=` in every integer dtype a caller may hold lengths in, with sequences LONGER than the narrow dtypes can count (uint8 beyond 256, int8
     # beyond 128): the mask is position < length in exact integer arithmetic, whatever the dtype of `lens`
-    for lt_i, lens_dt in enumerate((torch.int64, torch.int32, torch.int16, torch.uint8, torch.int8)):
+    for lt_i, lens_dt in enumerate((torch.int64, torch.int32, torch.int16, torch.uint8, torch.int8, torch.uint8, torch.int8, torch.int16)):
         try:
             n_long = 300
             vq_l = _VQ(dim=2, codebook_size=4, decay=0.5)
             vq_l.eval()
-            lens_v = torch.tensor([100, 37, 5])
+            lens_v = torch.tensor([100, 37, 5]) if lt_i % 2 == 0 else torch.tensor([100, 0, 37])          # a sample of length ZERO next to non-empty ones
             x_long = torch.randn(3, n_long, 2)
             m_long = torch.arange(n_long)[None, :] < lens_v[:, None]
             with torch.no_grad():
